@@ -96,6 +96,33 @@ theorem chain_suffix (h : Heap) (fuel i : Nat) (pre : List Nat) (j : Nat) (suf :
           simp at hc
           exact ih k as hc.2
 
+/-- the walk follows `drives` only: two heaps whose elements have the same `drives` links give the same
+    chain, whatever their `driven_by` back-links (which declarations never clear) say -/
+theorem chain_ignores_backlinks (h h' : Heap) (hd : ∀ i : Nat, (h[i]?).map Elem.drives = (h'[i]?).map Elem.drives)
+    (fuel i : Nat) : chainFrom h fuel i = chainFrom h' fuel i := by
+  induction fuel generalizing i with
+  | zero => rfl
+  | succ n ih =>
+    simp only [chainFrom]
+    have := hd i
+    cases he : h[i]? with
+    | none =>
+      rw [he] at this
+      cases he' : h'[i]? with
+      | none => rfl
+      | some e' => rw [he'] at this; simp at this
+    | some e =>
+      rw [he] at this
+      cases he' : h'[i]? with
+      | none => rw [he'] at this; simp at this
+      | some e' =>
+        rw [he'] at this
+        simp only [Option.map_some, Option.some.injEq] at this
+        simp only [this]
+        cases e'.drives with
+        | none => rfl
+        | some j => simp only; rw [ih j]
+
 /-- self-locking flag: true exactly when the chain contains a worm gear flagged self-locking -/
 theorem selfLocking_iff (h : Heap) (m fuel : Nat) (pt : PT) (ha : assemble h m fuel = .ok pt) :
     pt.selfLocking = true ↔
